@@ -685,7 +685,11 @@ func (p *Parser) parseNonOption(s *parseState) error {
 			return nil
 		} else if !s.command.SubcommandsOptional {
 			s.addArgs(s.arg)
-			return newErrorf(ErrUnknownCommand, "Unknown command `%s'", s.arg)
+
+			// Record the error, otherwise the required options check, which
+			// has not seen the rest of the arguments, would mask it
+			s.err = s.estimateCommand()
+			return s.err
 		}
 	}
 
